@@ -153,6 +153,7 @@ func runProperty(cfg *PropConfig, tier string, seed int) *propResult {
 			}
 		}
 		if masked {
+			o.Status = "known-finding (" + o.Status + ")"
 			continue
 		}
 		os.MkdirAll(replayDir, 0o755)
@@ -191,12 +192,18 @@ func (res *propResult) write(cfg *PropConfig, tier string, seed int, wall float6
 	nObl, nDis, nCover := 0, 0, 0
 	var samples []map[string]interface{}
 	byKind := map[string]int{}
+	var knownObls []string
 	for _, o := range res.obls {
 		if o.Cover {
 			nCover++
 			if o.Status != "discharged" {
 				// a contradictory precondition: counts as failure (already reported above)
 			}
+			continue
+		}
+		if strings.HasPrefix(o.Status, "known-finding") {
+			// recorded defect: not claimed, not counted as an obligation of this run's proof
+			knownObls = append(knownObls, o.Name)
 			continue
 		}
 		nObl++
@@ -232,6 +239,7 @@ func (res *propResult) write(cfg *PropConfig, tier string, seed int, wall float6
 		"not_decided":              cfg.NotDecided,
 		"bounded":                  cfg.Bounded,
 		"known_findings":           res.known,
+		"obligations_excluded_as_known_findings": knownObls,
 		"lemmas":                   cfg.Lemmas,
 	}
 	as := append([]string{}, cfg.Assumptions...)
